@@ -11,8 +11,8 @@ from .core import Ob, Bounded
 def k1_block(res, ctx, modname, names, prefix, procs=None):
     """Run K1 contracts `names` of contract module `modname`; obligations are added to res (named prefix + vc name).
     Records trusted base / assumptions of the registry once."""
-    mod = importlib.import_module(modname)
-    reg = mod.registry()
+    from pv.contract import load_registry
+    reg = load_registry(modname)
     missing = [n for n in names if n not in reg.contracts]
     if missing:
         raise RuntimeError(f'contracts {missing} are not defined by {modname}')
@@ -41,8 +41,8 @@ def k1_block(res, ctx, modname, names, prefix, procs=None):
 def canary_contract(res, modname, base_name, clause, broken_text, tier='quick'):
     """Vacuity / engine guard: the contract with one postcondition replaced by a deliberately false statement must
     come back failed (sat or undecided), never discharged."""
-    mod = importlib.import_module(modname)
-    reg = mod.registry()
+    from pv.contract import load_registry
+    reg = load_registry(modname)
     con = reg.contracts[base_name]
     import copy
     c2 = copy.copy(con)
